@@ -193,6 +193,7 @@ class Lexer:
         state = 0
         pos = 0
         line = 1
+        startline = 1
         column = 0
         updatepos = True
         while pos < len(self.script):
@@ -206,6 +207,11 @@ class Lexer:
                     column += 1
             updatepos = True
 
+            if state == 0:
+                # the line on which a token that starts here begins; the
+                # counters have moved on by the time the token is emitted
+                startline = line
+
             if state == 0:  # Eat whitespace
                 if ch == "#":
                     state = 9
@@ -213,7 +219,7 @@ class Lexer:
                     token += ch
                     state = 10
                 elif ch in "()[],;":
-                    here = SourcePos(fname, line, column)
+                    here = SourcePos(fname, startline, column)
                     self.tokens.append(Token(ch, "interpunction", here))
                 elif ch == "/":
                     state = 5
@@ -236,19 +242,19 @@ class Lexer:
             elif state == 1:  # normal token
                 if ch in "()+-*/%[]<>=,;!\"' \t\r\n#":
                     if token == "TRUE":
-                        here = SourcePos(fname, line, column - len("TRUE"))
+                        here = SourcePos(fname, startline, column - len("TRUE"))
                         self.tokens.append(Token("TRUE", "boolean", here))
                         token = ""
                     elif token == "FALSE":
-                        here = SourcePos(fname, line, column - len("TRUE"))
+                        here = SourcePos(fname, startline, column - len("TRUE"))
                         self.tokens.append(Token("FALSE", "boolean", here))
                         token = ""
                     elif token in KEYWORDS:
-                        here = SourcePos(fname, line, column - len(token))
+                        here = SourcePos(fname, startline, column - len(token))
                         self.tokens.append(Token(token, "keyword", here))
                         token = ""
                     elif token:
-                        here = SourcePos(fname, line, column - len(token))
+                        here = SourcePos(fname, startline, column - len(token))
                         self.tokens.append(Token(token, "identifier", here))
                         token = ""
                     pos -= 1
@@ -257,7 +263,7 @@ class Lexer:
                 else:
                     token += ch
                     if token == "...":
-                        here = SourcePos(fname, line, column - len(token))
+                        here = SourcePos(fname, startline, column - len(token))
                         self.tokens.append(Token(token, "interpunction", here))
                         token = ""
                         state = 0
@@ -265,18 +271,18 @@ class Lexer:
             elif state == 2:  # <>, <=, >=, ==, <<, >>, <<<, >>>, !>, <*, *>
                 if ch == "=":
                     token += ch
-                    here = SourcePos(fname, line, column - len(token) - 1)
+                    here = SourcePos(fname, startline, column - len(token) - 1)
                     self.tokens.append(Token(token, "operator", here))
                     token = ""
                     state = 0
                 elif ch == ">" and token == "=":
                     token += ch
-                    here = SourcePos(fname, line, column - len(token) - 1)
+                    here = SourcePos(fname, startline, column - len(token) - 1)
                     self.tokens.append(Token(token, "interpunction", here))
                     token = ""
                     state = 0
                 elif ch == ">" and token == "<":
-                    here = SourcePos(fname, line, column - 1)
+                    here = SourcePos(fname, startline, column - 1)
                     self.tokens.append(Token("<>", "operator", here))
                     token = ""
                     state = 0
@@ -288,17 +294,17 @@ class Lexer:
                     state = 21
                 elif ch == ">" and token == "!":
                     token += ch
-                    here = SourcePos(fname, line, column - len(token) - 1)
+                    here = SourcePos(fname, startline, column - len(token) - 1)
                     self.tokens.append(Token("!>", "operator", here))
                     token = ""
                     state = 0
                 elif ch == "*" and token == "<":
-                    here = SourcePos(fname, line, column - 1)
+                    here = SourcePos(fname, startline, column - 1)
                     self.tokens.append(Token("<*", "interpunction", here))
                     token = ""
                     state = 0
                 else:
-                    here = SourcePos(fname, line, column - len(token))
+                    here = SourcePos(fname, startline, column - len(token))
                     self.tokens.append(Token(token, "operator", here))
                     token = ""
                     pos -= 1
@@ -307,17 +313,17 @@ class Lexer:
 
             elif state == 21:  # <<, >>, <<<, >>>
                 if ch == "<" and token == "<<":
-                    here = SourcePos(fname, line, column - 3)
+                    here = SourcePos(fname, startline, column - 3)
                     self.tokens.append(Token("<<<", "interpunction", here))
                     token = ""
                     state = 0
                 elif ch == ">" and token == ">>":
-                    here = SourcePos(fname, line, column - 3)
+                    here = SourcePos(fname, startline, column - 3)
                     self.tokens.append(Token(">>>", "interpunction", here))
                     token = ""
                     state = 0
                 else:
-                    here = SourcePos(fname, line, column - len(token))
+                    here = SourcePos(fname, startline, column - len(token))
                     self.tokens.append(Token(token, "interpunction", here))
                     token = ""
                     pos -= 1
@@ -326,7 +332,7 @@ class Lexer:
 
             elif state == 3:  # double quotes
                 if ch == '"':
-                    here = SourcePos(fname, line, column - len(token) - 2 + 1)
+                    here = SourcePos(fname, startline, column - len(token) - 2 + 1)
                     self.tokens.append(Token(token, "string", here))
                     token = ""
                     state = 0
@@ -371,7 +377,7 @@ class Lexer:
 
             elif state == 4:  # single quote
                 if ch == "'":
-                    here = SourcePos(fname, line, column - len(token) - 2 + 1)
+                    here = SourcePos(fname, startline, column - len(token) - 2 + 1)
                     self.tokens.append(Token(token, "string", here))
                     token = ""
                     state = 0
@@ -419,11 +425,11 @@ class Lexer:
                     token += "//"
                     state = 6
                 elif ch == "=":
-                    here = SourcePos(fname, line, column - 1)
+                    here = SourcePos(fname, startline, column - 1)
                     self.tokens.append(Token("/=", "operator", here))
                     state = 0
                 else:
-                    here = SourcePos(fname, line, column - 1)
+                    here = SourcePos(fname, startline, column - 1)
                     self.tokens.append(Token("/", "operator", here))
                     pos -= 1
                     updatepos = False
@@ -432,7 +438,7 @@ class Lexer:
             elif state == 6:  # pattern
                 token += ch
                 if token.endswith("//"):
-                    here = SourcePos(fname, line, column - len(token) - 4 + 1)
+                    here = SourcePos(fname, startline, column - len(token) - 4 + 1)
                     self.tokens.append(Token(token, "pattern", here))
                     token = ""
                     state = 0
@@ -444,7 +450,7 @@ class Lexer:
                 elif ch in "0123456789_":
                     token += ch
                 elif ch in "()[]<>=! \t\n\r+-*/%,;#":
-                    here = SourcePos(fname, line, column - len(token))
+                    here = SourcePos(fname, startline, column - len(token))
                     token = token.replace("_", "")
                     self.tokens.append(Token(token, "int", here))
                     token = ""
@@ -472,7 +478,7 @@ class Lexer:
                 if ch in "0123456789abcdefABCDEF_":
                     token += ch
                 elif ch in "()[]<>=! \t\n\r+-*/%,;#":
-                    here = SourcePos(fname, line, column - len(token))
+                    here = SourcePos(fname, startline, column - len(token))
                     try:
                         token = str(int(token.replace("_", ""), 16))
                     except ValueError:
@@ -492,7 +498,7 @@ class Lexer:
                 if ch in "01_":
                     token += ch
                 elif ch in "()[]<>=! \t\n\r+-*/%,;#":
-                    here = SourcePos(fname, line, column - len(token))
+                    here = SourcePos(fname, startline, column - len(token))
                     try:
                         token = str(int(token.replace("_", ""), 2))
                     except ValueError:
@@ -512,7 +518,7 @@ class Lexer:
                 if ch in "0123456789_":
                     token += ch
                 elif ch in "()[]<>=! \t\n\r+-*/%,;#":
-                    here = SourcePos(fname, line, column - len(token))
+                    here = SourcePos(fname, startline, column - len(token))
                     token = token.replace("_", "")
                     self.tokens.append(Token(token, "decimal", here))
                     token = ""
@@ -530,22 +536,22 @@ class Lexer:
             elif state == 10:  # potentially composite assign or -> or *>
                 if ch == "=":
                     token += ch
-                    here = SourcePos(fname, line, column)
+                    here = SourcePos(fname, startline, column)
                     self.tokens.append(Token(token, "operator", here))
                     token = ""
                     state = 0
                 elif token == "-" and ch == ">":
-                    here = SourcePos(fname, line, column)
+                    here = SourcePos(fname, startline, column)
                     self.tokens.append(Token("->", "operator", here))
                     token = ""
                     state = 0
                 elif token == "*" and ch == ">":
-                    here = SourcePos(fname, line, column)
+                    here = SourcePos(fname, startline, column)
                     self.tokens.append(Token("*>", "interpunction", here))
                     token = ""
                     state = 0
                 else:
-                    here = SourcePos(fname, line, column)
+                    here = SourcePos(fname, startline, column)
                     self.tokens.append(Token(token, "operator", here))
                     token = ""
                     pos -= 1
